@@ -203,6 +203,14 @@ def msgEdit? : List String → Option MsgEdit
     | some k, some v => some (.hadd k v)
     | _, _ => none
   | ["content", c] => (optBytes? c).map .content
+  | ["contentce", c, r] =>
+    let res : Option EncRes := if r = "verr" then some .verr else
+      match r.toList with
+      | 'o' :: 'k' :: ':' :: x => (hexOr (String.ofList x)).map .ok
+      | _ => none
+    match optBytes? c, res with
+    | some c, some r => some (.contentCE c r)
+    | _, _ => none
   | ["tset", t] => (optFields? t).map .tset
   | ["thset", k, v] => match hexOr k, hexOr v with
     | some k, some v => some (.thset k v)
